@@ -93,8 +93,10 @@ def gen_npm(tier, rng):
                            'each evaluated on the versions induced by its own numbers and tags plus versions at MAX_SAFE_INTEGER' % (nsingle, nh, nc, na)}
 
 def eval_npm(triples, tier, rng):
+    return eval_c01(triples, tier, rng, gen_npm.table)
+
+def eval_c01(triples, tier, rng, table):
     import families as F
-    table = gen_npm.table
     fails = []; nontrivial = 0; certs = []; excused = set()
     dist = {'texts': 0, 'parse_failed': 0, 'structure_mismatch': 0, 'admitted': 0, 'rejected': 0, 'known_class_pairs': 0, 'loose_spellings': 0, 'spec_vs_python_disagreements': 0}
     for c, o, ver in triples:
@@ -147,6 +149,71 @@ def eval_npm(triples, tier, rng):
         if impl_struct and len(certs) < 3000 and rng.random() < 0.05 and len(text) < 40:
             certs.append('r_parse %s = ROk %s' % (F.g_str(text), F.g_range(impl_struct)))
     return {'failures': fails, 'nontrivial': nontrivial, 'distribution': dist, 'certs': certs, 'excused': excused}
+
+# ------------------------------------------------------------------ C01 / C02 / C13: arbitrary short range texts
+RT_ALPHABET = ['0', '1', 'x', '*', '.', '-', '+', '<', '>', '=', '~', '^', '|', ' ', 'v', 'a']
+RT_TOKENS = ['1', '1.2', '1.2.3', '>=1.2.3', '~1.2', '^0.1.2', '1 - 2', '1.x', 'a', '<=2', '1.2.3-a', '||']
+def gen_rtext(tier, rng):
+    """every string of length <= n over the range alphabet, token-anchored strings, and rendered trees with `-` / junk tokens and
+    blanks around them.  A text inside the documented language (tools/textgrammar.py) becomes a c01 case with the tree the
+    independent reader gives it; any other text is a plain rparse case (model vs. implementation only)."""
+    import textgrammar as TG
+    n = 4 if tier == 'quick' else 5
+    texts = []
+    for k in range(n + 1):
+        for w in itertools.product(RT_ALPHABET, repeat=k): texts.append(''.join(w))
+    nshort = len(texts)
+    m = 2 if tier == 'quick' else 3
+    suffixes = [''.join(w) for k in range(m + 1) for w in itertools.product(RT_ALPHABET, repeat=k)]
+    for tok in RT_TOKENS:
+        for x in suffixes:
+            texts.append(tok + x); texts.append(x + tok)
+            if len(x) == 2: texts.append(x[0] + tok + x[1])
+    # rendered trees with a `-` token or junk at every position, blanks at both ends
+    nr = 3000 if tier == 'quick' else 60000
+    for _ in range(nr):
+        r = RG.random_range(rng, [0, 1, 2], garbage=0.15)
+        t = RG.render(r, RG.Spelling(rng, rng.random() < 0.5))
+        toks = t.split(' ')
+        k = rng.random()
+        if k < 0.5: toks.insert(rng.randrange(len(toks) + 1), rng.choice(['-', '-', 'foo', 'a.b', '', '||']))
+        t = ' '.join(toks)
+        if rng.random() < 0.3: t = ' ' * rng.randint(1, 2) + t
+        if rng.random() < 0.3: t = t + ' ' * rng.randint(1, 2)
+        texts.append(t)
+    texts = list(dict.fromkeys(texts))
+    cases = []; table = {}; inl = 0
+    extra_v = [V(MAX, MAX, MAX)]
+    for t in texts:
+        r = TG.parse_text(t)
+        if r is None:
+            cases.append(dump(['rparse', S(t)])); continue
+        inl += 1
+        probes = probes_for([r], extra_v)
+        c = dump(['c01', S(t), RG.sx_range(r), [enc_version(v) for v in probes]])
+        table[c] = (t, r, probes); cases.append(c)
+    gen_rtext.table = table
+    return cases, {'exhaustive': True, 'short_strings': nshort, 'texts': len(texts), 'in_documented_language': inl,
+                   'what': 'every string of length <= %d over the 16-symbol range alphabet `0 1 x * . - + < > = ~ ^ | blank v a` (%d), token-anchored strings (tok.S^<=%d, S^<=%d.tok, c.tok.c for %d tokens), '
+                           '%d rendered random trees with a `-`/junk/empty token inserted and blanks at the ends: %d distinct texts, %d of them inside the documented language '
+                           '(independent text-level reader tools/textgrammar.py) and compared with npm semantics on their induced versions; the rest compared model vs. implementation only'
+                           % (n, nshort, m, m, len(RT_TOKENS), nr, len(texts), inl)}
+
+def eval_rtext(triples, tier, rng):
+    import families as F
+    ev = eval_c01(triples, tier, rng, gen_rtext.table)
+    # plain rparse cases: certificates and distribution only (a disagreement is reported by the orchestrator)
+    d = ev['distribution']; d['rparse_ok'] = 0; d['rparse_err'] = 0
+    for c, o, v in triples:
+        if not c.startswith('(rparse '): continue
+        if o.startswith('(ok'):
+            d['rparse_ok'] += 1
+            if len(ev['certs']) < 4000 and rng.random() < 0.02:
+                s = str(parse(c)[1]); ev['certs'].append('r_parse %s = ROk %s' % (F.g_str(s), F.g_range(dec_range(parse(o)[1]))))
+        elif o.startswith('(err'): d['rparse_err'] += 1
+        elif o == 'panic':
+            ev['failures'].append({'what': 'Range::parse panicked on %r' % str(parse(c)[1]), 'case': c, 'input': [str(parse(c)[1])], 'kind': 'panic'})
+    return ev
 
 def show_struct(st):
     if st is None: return 'no range'
